@@ -43,7 +43,9 @@ TRANSLATORS = {
     "C05": _T + "harness/py2v_shapes.py + coq/lib/PyShapes.v (make_response, "
            "to_response, __start_response__ -> gen/ShapesGen.v)",
     "C07": _T + "harness/py2v.py + coq/lib/Py.v (make_partial, range block, "
-           "__range_generator__ -> gen/RangeGen.v)",
+           "__range_generator__ -> gen/RangeGen.v); harness/py2v_clen.py + "
+           "coq/lib/PyClen.v (__end_of_response__ of the three classes -> "
+           "gen/ClenGen.v)",
     "C09": _T + "harness/py2v.py + coq/lib/Py.v (CachedInput.read/readline "
            "-> gen/CachedGen.v)",
     "C11": _T + "harness/py2v_digest.py + coq/lib/PyDigest.v (check_response,"
@@ -56,6 +58,12 @@ TRANSLATORS = {
            "gen/TokenGen.v)",
 }
 TRANSLATORS.update({
+    "C06": _T + "harness/py2v_clen.py + coq/lib/PyClen.v (Response / "
+           "FileObjResponse / GeneratorResponse length bookkeeping and "
+           "__end_of_response__, IBytesIO iteration -> gen/ClenGen.v)",
+    "C12": _T + "harness/py2v_static.py + coq/lib/PyStatic.v (static part "
+           "of handler_from_table, document_root/document_index properties, "
+           "directory_index filter loop -> gen/StaticGen.v)",
     "C08": _T + "harness/py2v_multipart.py + coq/lib/PyMultipart.v "
            "(read_lines_to_outerboundary, _write, make_file, valid_boundary "
            "-> gen/MultipartGen.v)",
